@@ -1,4 +1,5 @@
 import PolyVerif.Lemmas.LocationStrict
+import PolyVerif.Lemmas.LocationGrammar
 /-
 C02 — Feature sequences follow INSDC location semantics.
 
@@ -156,6 +157,46 @@ theorem build_3prime_witness :
   have hn : insdcParse (buildLoc ⟨(3 : Nat) - 1, (7 : Nat), false, false, false, true, []⟩) = none := by decide
   rw [hn] at h1
   cases h1
+
+/-! ### parseLocation does not panic on location texts (used by C01: genbank.Parse of a well-formed record) -/
+
+/-- on the canonical text of every location of the property's grammar -/
+theorem parseLocation_print_total (l : Loc) (n : Nat) (h : InRange l n) (ha : Arity l) :
+    parseLocation (print l) ≠ .panic := by
+  rw [parsed_structure l n h ha]
+  intro e; cases e
+
+/-- on every text of the general INSDC location SHAPE: an atom without parentheses and commas (`12`, `1..5`,
+`<1..>9`, the writer's `3..7>`, `102.110`, `1^2`, `J00194.1:100..202`) or `operator(loc,…)` for any operator
+word (`join`, `order`, `bond`, `gap`, …) with ≥ 1 operands, `complement` with exactly one — any nesting -/
+theorem parseLocation_total_shape (t : GLoc) (h : gwf t = true) : ∃ p, parseLocation (gprint t) = .ok p :=
+  parseLocation_gprint t h
+
+/-- on every location text of C01's domain predicate `GbLayout.isLocText` -/
+theorem parseLocation_total (s : Str) (h : GbLayout.isLocText s = true) : parseLocation s ≠ .panic := by
+  obtain ⟨t, ht, rfl⟩ := isLocText_shape s h
+  obtain ⟨p, hp⟩ := parseLocation_gprint t ht
+  rw [hp]
+  intro e; cases e
+
+/-- What still panics (in the model as in Go: `locationString[first+1 : LastIndex(")")]`): a text whose first
+`(` is not followed by any `)`.  (Operands are parsed recursively, so the same inside a `join(…)` /
+`complement(…)` operand panics too; a text with parentheses that is not of the shape above may reach that
+case although its parentheses are balanced, e.g. `join(1)x(2)` whose operand is `1)x(2`.) -/
+theorem parseLocation_panics_unclosed (s : Str) (i : Nat) (hi : indexOf '(' s = some i)
+    (hj : lastIndexOf ')' s = none ∨ ∃ j, lastIndexOf ')' s = some j ∧ j ≤ i) :
+    parseLocation s = .panic :=
+  parseLocation_unclosed s i hi hj
+
+example : parseLocation "join(1..2".toList = .panic :=
+  parseLocation_panics_unclosed _ 4 (by decide) (Or.inl (by decide))
+example : parseLocation ")(".toList = .panic :=
+  parseLocation_panics_unclosed _ 1 (by decide) (Or.inr ⟨0, by decide, by decide⟩)
+example : gprint (.op "order".toList [.atom "1..2".toList, .op "bond".toList [.atom "3".toList, .atom "9^10".toList],
+    .op "complement".toList [.atom "102.110".toList], .atom "5..7>".toList]) =
+      "order(1..2,bond(3,9^10),complement(102.110),5..7>)".toList
+    ∧ gwf (.op "order".toList [.atom "1..2".toList, .op "bond".toList [.atom "3".toList, .atom "9^10".toList],
+        .op "complement".toList [.atom "102.110".toList], .atom "5..7>".toList]) = true := by decide
 
 /-! ### non-vacuity: a concrete nested location meets every hypothesis, and the functions compute -/
 
